@@ -379,17 +379,26 @@ Proof.
     + rewrite <- Ert1. exact Hendrt.
 Qed.
 
-Lemma remove_A_ok : forall c s T kids d f rs rt ph items i x sl' new,
+Lemma first_off_pos : forall P u R, NoDup (ids (P ++ u ++ R)) -> u <> [] ->
+  first_off (P ++ u ++ R) u = Some (length P).
+Proof.
+  intros P u R Hnd Hne. destruct u as [|z u']; [contradiction|]. unfold first_off.
+  change (P ++ (z :: u') ++ R) with (P ++ z :: (u' ++ R)) in *. apply find_off_app. exact Hnd.
+Qed.
+
+Lemma remove_A_ok : forall keep c s T kids d f rs rt ph items i x sl' new,
   HWF cs (Tree c s T kids d) -> kid kids f = Some (SRep rs rt ph items) ->
-  rep_remove_A rs rt ph items i = Some (x, sl') -> with_rep (Tree c s T kids d) f sl' = Some new ->
+  rep_remove_A keep rs rt ph items i = Some (x, sl') -> with_rep (Tree c s T kids d) f sl' = Some new ->
   sub_ok cs s x /\ exists pre g post, local_edit (Tree c s T kids d) new pre (g ++ node_toks x) [] post [].
 Proof.
-  intros c s T kids d f rs rt ph items i x sl' new Hroot Ek H Hwith.
+  intros keep c s T kids d f rs rt ph items i x sl' new Hroot Ek H Hwith.
   unfold rep_remove_A in H. destruct (nth_error items i) as [x0|] eqn:Ei; try discriminate.
   destruct (after_unit rt (prev_unit ph items i)) as [a|] eqn:Ea; try discriminate.
   destruct (after_unit rt (node_toks x0)) as [b|] eqn:Eb; try discriminate.
+  destruct (first_off rt (node_toks x0)) as [xa|] eqn:Exa; try discriminate.
+  set (a' := rep_remove_from keep rt items i a xa) in H.
   inversion H. subst x0 sl'. clear H. unfold with_rep in Hwith. rewrite Ek in Hwith.
-  destruct (replace_infix rt (cut rt a b) T) as [T'|] eqn:Eri; try discriminate.
+  destruct (replace_infix rt (cut rt a' b) T) as [T'|] eqn:Eri; try discriminate.
   inversion Hwith. subst new. clear Hwith.
   destruct (rep_basic cs c s T kids d f rs rt ph items Hroot Ek) as (Hrs & Hndrt & HndL & Hendrt & Hnert & Hwrt).
   destruct (nth_split_set items i x Ei) as (I1 & I2 & EI & Hlen & _).
@@ -422,21 +431,50 @@ Proof.
   { assert (Ert2 : rt = ((R1 ++ g) ++ node_toks x) ++ R2) by (rewrite Ert1, <- !app_assoc; reflexivity).
     rewrite Ert2 in Eb, Hndrt. rewrite (after_unit_pos (R1 ++ g) (node_toks x) R2 Hndrt HneX) in Eb.
     inversion Eb. rewrite <- !app_assoc. reflexivity. }
-  assert (Ecut : cut rt a b = R1 ++ [] ++ R2).
-  { rewrite Ert1, Ea', Eb'. simpl. apply cut_at. }
-  rewrite Ecut in *. split; [exact Hxok|].
+  split; [exact Hxok|].
   rewrite EI0 in Ek. rewrite <- Eus in Hw1.
-  destruct (rep_local_change c s T kids d f rs rt ph I1 [x] [] I2 R1 (g ++ node_toks x) [] R2 [] T'
-           Hroot Ek Ert1 Hw1) as (pre & post & Hle); auto.
-  - exists g, []. rewrite app_nil_r. split; [reflexivity|exact I].
-  - exact I.
-  - constructor.
-  - constructor.
-  - intros z [].
-  - apply (rep_ends_remove cs s rs rs ph I1 x I2 us0 Ta pu g R2 Hitems Eus Hw2).
-    + unfold R1 in Ert1. rewrite <- Ert1. exact Hndrt.
-    + unfold R1 in Ert1. rewrite <- Ert1, <- EI0. exact Hendrt.
-  - exists pre, g, post. exact Hle.
+  unfold rep_remove_from in a'.
+  destruct (Nat.ltb (S i) (length items) && Nat.ltb a xa && keep && forallb blank_tk (slice rt a xa)) eqn:Ekeep; subst a'.
+  - (* the blanks in front of the item stay: they go with the part before the cut *)
+    assert (Ert3 : rt = (R1 ++ g) ++ node_toks x ++ R2) by (rewrite Ert1, <- !app_assoc; reflexivity).
+    assert (Exa' : xa = length (R1 ++ g)).
+    { rewrite Ert3 in Exa, Hndrt. rewrite (first_off_pos (R1 ++ g) (node_toks x) R2 Hndrt HneX) in Exa.
+      inversion Exa. reflexivity. }
+    assert (Eb2 : b = length ((R1 ++ g) ++ node_toks x)) by (rewrite Eb', <- !app_assoc; reflexivity).
+    assert (Ecut : cut rt xa b = (R1 ++ g) ++ [] ++ R2).
+    { rewrite Ert3, Exa', Eb2. simpl. apply cut_at. }
+    rewrite Ecut in *.
+    assert (HI2 : I2 <> []).
+    { apply andb_prop in Ekeep. destruct Ekeep as [Ekeep _]. apply andb_prop in Ekeep. destruct Ekeep as [Ekeep _].
+      apply andb_prop in Ekeep. destruct Ekeep as [Ekeep _]. apply Nat.ltb_lt in Ekeep.
+      intro E. rewrite EI, E, app_length in Ekeep. simpl in Ekeep. lia. }
+    destruct (rep_local_change c s T kids d f rs rt ph I1 [x] [] I2 (R1 ++ g) (node_toks x) [] R2 [] T'
+             Hroot Ek Ert3 (woven_glue _ _ g Hw1)) as (pre & post & Hle); auto.
+    + exists [], []. rewrite app_nil_r. split; [reflexivity|exact I].
+    + exact I.
+    + constructor.
+    + constructor.
+    + intros z [].
+    + apply (rep_ends_tail cs rs rs ph I1 [x] [] I2 (R1 ++ g) (node_toks x) [] R2); auto.
+      * intros z0 Hz0. assert (Hzok : sub_ok cs s z0) by (apply Hitems; apply in_or_app; right; right; exact Hz0).
+        exact (proj1 (sub_ok_toks_ne s z0 Hzok)).
+      * unfold R1. intro E. apply app_eq_nil in E. destruct E as [E _]. apply app_eq_nil in E. destruct E as [_ E]. exact (Hpu E).
+      * rewrite <- Ert3, <- EI0. exact Hendrt.
+    + exists pre, [], post. exact Hle.
+  - assert (Ecut : cut rt a b = R1 ++ [] ++ R2).
+    { rewrite Ert1, Ea', Eb'. simpl. apply cut_at. }
+    rewrite Ecut in *.
+    destruct (rep_local_change c s T kids d f rs rt ph I1 [x] [] I2 R1 (g ++ node_toks x) [] R2 [] T'
+             Hroot Ek Ert1 Hw1) as (pre & post & Hle); auto.
+    + exists g, []. rewrite app_nil_r. split; [reflexivity|exact I].
+    + exact I.
+    + constructor.
+    + constructor.
+    + intros z [].
+    + apply (rep_ends_remove cs s rs rs ph I1 x I2 us0 Ta pu g R2 Hitems Eus Hw2).
+      * unfold R1 in Ert1. rewrite <- Ert1. exact Hndrt.
+      * unfold R1 in Ert1. rewrite <- Ert1, <- EI0. exact Hendrt.
+    + exists pre, g, post. exact Hle.
 Qed.
 
 Lemma remove_B_ok : forall c s T kids d f rs rt ph x z rest sl' new,
@@ -503,21 +541,21 @@ Proof.
   - destruct (insert_A_ok _ _ _ _ _ _ _ _ _ _ _ _ _ _ _ Hroot Ek Hio Eins H) as (pre & post & Hle). exists pre, post, (seps ++ node_toks y). auto.
 Qed.
 
-Lemma remove_at_ok : forall c s T kids d f i x new,
+Lemma remove_at_ok : forall keep c s T kids d f i x new,
   HWF cs (Tree c s T kids d) ->
-  remove_item_at (Tree c s T kids d) f i = Some (x, new) ->
+  remove_item_at keep (Tree c s T kids d) f i = Some (x, new) ->
   sub_ok cs s x /\ exists pre g post Mold, (Mold = g ++ node_toks x \/ Mold = node_toks x ++ g)
     /\ local_edit (Tree c s T kids d) new pre Mold [] post [].
 Proof.
-  intros c s T kids d f i x new Hroot H. unfold remove_item_at, node_rep in H.
+  intros keep c s T kids d f i x new Hroot H. unfold remove_item_at, node_rep in H.
   destruct (kid kids f) as [[?|?|rs rt ph items|?]|] eqn:Ek; try discriminate.
-  destruct (rep_remove rs rt ph items i) as [[x0 sl']|] eqn:Erem; try discriminate.
+  destruct (rep_remove keep rs rt ph items i) as [[x0 sl']|] eqn:Erem; try discriminate.
   destruct (with_rep (Tree c s T kids d) f sl') as [n'|] eqn:Ew; try discriminate. inversion H. subst x0 n'. clear H.
   unfold rep_remove in Erem.
-  assert (HA : rep_remove_A rs rt ph items i = Some (x, sl') ->
+  assert (HA : rep_remove_A keep rs rt ph items i = Some (x, sl') ->
                sub_ok cs s x /\ exists pre g post Mold, (Mold = g ++ node_toks x \/ Mold = node_toks x ++ g)
                  /\ local_edit (Tree c s T kids d) new pre Mold [] post []).
-  { intro E. destruct (remove_A_ok _ _ _ _ _ _ _ _ _ _ _ _ _ _ Hroot Ek E Ew) as (Hx & pre & g & post & Hle).
+  { intro E. destruct (remove_A_ok _ _ _ _ _ _ _ _ _ _ _ _ _ _ _ Hroot Ek E Ew) as (Hx & pre & g & post & Hle).
     split; [exact Hx|]. exists pre, g, post, (g ++ node_toks x). auto. }
   destruct i as [|i']; [destruct items as [|x1 [|z rest]]|]; auto.
   assert (x1 = x).
@@ -647,14 +685,14 @@ Theorem remove_item_ok : forall root p f i x root',
 Proof.
   intros root p f i x root' Hroot H. unfold remove_item in H.
   destruct (select root p) as [old|] eqn:Hsel; try discriminate.
-  destruct (remove_item_at old f i) as [[x0 new]|] eqn:Hrem; try discriminate.
+  destruct (remove_item_at (rep_touches root old f i) old f i) as [[x0 new]|] eqn:Hrem; try discriminate.
   destruct (plug root p new) as [r'|] eqn:Hplug; try discriminate. inversion H. subst x0 r'. clear H.
   destruct old as [t0|c s T k d]; [discriminate|].
   assert (Hold : HWF cs (Tree c s T k d)).
   { destruct p as [|st r].
     - simpl in Hsel. inversion Hsel. subst root. auto.
     - exact (proj1 (proj1 (select_sub_ok _ root _ Hroot Hsel ltac:(discriminate)))). }
-  destruct (remove_at_ok cs Hok c s T k d f i x new Hold Hrem) as (Hx & pre & g & post & Mold & HM & Hle).
+  destruct (remove_at_ok cs Hok _ c s T k d f i x new Hold Hrem) as (Hx & pre & g & post & Mold & HM & Hle).
   destruct (lift_local p root _ new root' pre Mold [] post [] Hroot Hsel Hplug Hle) as (A & B & (pr & po & C1 & C2) & D).
   - intros t [].
   - intros t t' [].
